@@ -24,12 +24,26 @@
   * `C19_pickNext_fuel`: `pick_next`'s recursion always terminates within `pickMeasure + 1` calls.
   * `C19_iterations_bounded`, `C19_length_bounded`: the configured bounds are respected.
   * `C19_trace_sorted`: recorded times never go back (the clock is monotone).
+  * `C19_total` (+ `_queue`, `_raw`, `_returns`): **totality with machines**.  For machine lists
+    accepted by validation, fractions in [0,1], a non-empty trace with times up to `T`, network
+    delay `d`, a packets-per-second limit that is absent or at least 1, a cap of `N >= 1`
+    iterations (`max_sim_iterations = N`, or `max_trace_length = N` with both output filters
+    off) and the arithmetic guard `(N + 2) * span N T d <= Duration::MAX`
+    (`span` = an explicit bound on the width of simulated time: `T + d + 4 d + 2 N aggD + N stepZ`,
+    quadratic in `N` with the 24 h caps on sampled timeouts and durations as coefficients), the
+    run ends in none of the model's fault classes — for EVERY oracle.  Behind it
+    (`Proofs/SimNoFault*.lean`): a queued TunnelSent is at most `k * 48 h` old after `k`
+    iterations, hence every aggregate delay and the clock stay within `span`; the clock values
+    handed to the two frameworks lie in a window of that width, so the potential argument of
+    C01 excludes their only fault; C04 keeps every returned machine id inside the slot vectors.
 -/
 import MbVerif.Proofs.SimRecord
 import MbVerif.Proofs.SimCap
 import MbVerif.Proofs.SimFuel
 import MbVerif.Proofs.SimBugFree
 import MbVerif.Proofs.SimTotal
+import MbVerif.Proofs.SimNoFault
+import MbVerif.Proofs.SimRaw
 import MbVerif.Spec.C19
 
 namespace Mb.C19
@@ -266,6 +280,166 @@ theorem C19_trace_sorted (budget : Nat) (mc ms : List Machine) (sq : SimQueue) (
     · simp
     · rw [List.pairwise_map]
       exact List.Pairwise.filter _ hgood.2
+
+/-! ### Totality with machines -/
+
+/-- **The simulation returns without a fault** (general queue).  Machines accepted by validation
+    (and of the shape of the Rust type: one transition slot per event), fractions in `[0, 1]`, a
+    non-empty, well-formed queue of trace packets with times in `[-d, T]`, network delay `d`, an
+    effective packets-per-second limit of at least 1, a cap of `N ≥ 1` iterations (`CappedAt`:
+    `max_sim_iterations = N`, or `max_trace_length = N` with both output filters off), and
+    `(N + 2) · span N T d ≤ Duration::MAX`: whatever the oracle, the run ends in none of the
+    fault classes of the model — no overflow of checked `Duration` arithmetic, no `unwrap` on
+    `None`, no fault inside either framework, no machine id out of range, no `BUG:` assertion. -/
+theorem C19_total_queue (budget : Nat) (mc ms : List Machine) (sq : SimQueue) (N d T : Nat) (a : Args) (orc : σ)
+    (hmc : MachinesOK mc) (hms : MachinesOK ms)
+    (hfrac : Validate.fracOK a.fpClient = true ∧ Validate.fracOK a.fbClient = true ∧
+      Validate.fracOK a.fpServer = true ∧ Validate.fracOK a.fbServer = true)
+    (hq : QueueOK sq (-(d : Int)) (T : Int))
+    (hd : a.network.delay = d) (hpps : 1 ≤ effPps a.network sq.maxPps)
+    (hcap : CappedAt a N) (hN : 0 < N) (hg : (N + 2) * TB.span N T d ≤ durMax) :
+    ∀ f, (simAdvanced ρ budget mc ms sq a orc).stop ≠ .fault f :=
+  simAdvanced_no_fault ρ budget hmc hms hq hfrac hd hpps hcap hN hg orc
+
+/-- **The simulation returns without a fault** for the queue `parse_trace` builds from a
+    non-empty trace with times up to `T` (ns), with a packets-per-second limit that is absent
+    (then the trace-derived one is used) or at least 1. -/
+theorem C19_total (budget : Nat) (mc ms : List Machine) (trace : List TraceLine) (N d T : Nat) (a : Args) (orc : σ)
+    (hmc : MachinesOK mc) (hms : MachinesOK ms)
+    (hfrac : Validate.fracOK a.fpClient = true ∧ Validate.fracOK a.fbClient = true ∧
+      Validate.fracOK a.fpServer = true ∧ Validate.fracOK a.fbServer = true)
+    (hne : trace ≠ []) (hT : ∀ l ∈ trace, l.1 ≤ T)
+    (hd : a.network.delay = d) (hpps : ∀ p, a.network.pps = some p → 1 ≤ p)
+    (hcap : CappedAt a N) (hN : 0 < N) (hg : (N + 2) * TB.span N T d ≤ durMax) :
+    ∀ f, (simAdvanced ρ budget mc ms (parseTrace trace d) a orc).stop ≠ .fault f :=
+  simAdvanced_no_fault ρ budget hmc hms (parseTrace_queueOK d hne hT) hfrac hd
+    (parseTrace_effPps d hne a.network hpps) hcap hN hg orc
+
+/-- the same for raw input traces with all six direction tokens (padding lines are ignored by
+    the parser, so at least one normal packet is needed) -/
+theorem C19_total_raw (budget : Nat) (mc ms : List Machine) (raw : List RawLine) (N d T : Nat) (a : Args) (orc : σ)
+    (hmc : MachinesOK mc) (hms : MachinesOK ms)
+    (hfrac : Validate.fracOK a.fpClient = true ∧ Validate.fracOK a.fbClient = true ∧
+      Validate.fracOK a.fpServer = true ∧ Validate.fracOK a.fbServer = true)
+    (hne : normalLines raw ≠ []) (hT : ∀ l ∈ normalLines raw, l.1 ≤ T)
+    (hd : a.network.delay = d) (hpps : ∀ p, a.network.pps = some p → 1 ≤ p)
+    (hcap : CappedAt a N) (hN : 0 < N) (hg : (N + 2) * TB.span N T d ≤ durMax) :
+    ∀ f, (simAdvanced ρ budget mc ms (parseTraceRaw raw d) a orc).stop ≠ .fault f := by
+  rw [parseTraceRaw_eq]
+  exact C19_total ρ budget mc ms (normalLines raw) N d T a orc hmc hms hfrac hne hT hd hpps hcap hN hg
+
+/-- **Returns normally and within the bounds**: under the hypotheses of `C19_total` the run stops
+    because the queue is empty, a configured bound is reached or all normal packets are
+    processed, after at most `N` iterations. -/
+theorem C19_total_returns (budget : Nat) (mc ms : List Machine) (trace : List TraceLine) (N d T : Nat) (a : Args) (orc : σ)
+    (hmc : MachinesOK mc) (hms : MachinesOK ms)
+    (hfrac : Validate.fracOK a.fpClient = true ∧ Validate.fracOK a.fbClient = true ∧
+      Validate.fracOK a.fpServer = true ∧ Validate.fracOK a.fbServer = true)
+    (hne : trace ≠ []) (hT : ∀ l ∈ trace, l.1 ≤ T)
+    (hd : a.network.delay = d) (hpps : ∀ p, a.network.pps = some p → 1 ≤ p)
+    (hcap : a.maxSimIterations = N) (hN : 0 < N) (hg : (N + 2) * TB.span N T d ≤ durMax) :
+    ((simAdvanced ρ budget mc ms (parseTrace trace d) a orc).stop = .queueEmpty ∨
+     (simAdvanced ρ budget mc ms (parseTrace trace d) a orc).stop = .maxTrace ∨
+     (simAdvanced ρ budget mc ms (parseTrace trace d) a orc).stop = .maxIter ∨
+     (simAdvanced ρ budget mc ms (parseTrace trace d) a orc).stop = .noNormal) ∧
+    (simAdvanced ρ budget mc ms (parseTrace trace d) a orc).stream.length ≤ N := by
+  have hnf := C19_total ρ budget mc ms trace N d T a orc hmc hms hfrac hne hT hd hpps (Or.inl hcap) hN hg
+  have hb := C19_iterations_bounded ρ budget mc ms (parseTrace trace d) a orc (by omega)
+  refine ⟨?_, by omega⟩
+  cases hs : (simAdvanced ρ budget mc ms (parseTrace trace d) a orc).stop with
+  | queueEmpty => exact Or.inl rfl
+  | maxTrace => exact Or.inr (Or.inl rfl)
+  | maxIter => exact Or.inr (Or.inr (Or.inl rfl))
+  | noNormal => exact Or.inr (Or.inr (Or.inr rfl))
+  | fault f => exact absurd hs (hnf f)
+  | loopFuel => exact absurd hs hb.2
+
+/-- the span of simulated time the guard is stated with, written out: trace span and delays,
+    `2 N` aggregate delays of at most `N · 48 h + N · window` each, and `N` steps of at most
+    `24 h + 24 h + d + N · window + 48 h` -/
+theorem C19_span_eq (N T d : Nat) :
+    TB.span N T d = T + d + TB.aggK * d + N * (2 * (N * TB.W + TB.WB * N)) + N * (TB.TO + TB.TD + d + TB.WB * N + TB.W) := by
+  unfold TB.span TB.aggD TB.stepZ
+  rw [Nat.two_mul]
+
+/-- the constants of the guard, in nanoseconds: 24 h caps, the 48 h blocking horizon, the 1 s
+    bottleneck window, the factor 4 of the aggregate-delay schedule -/
+example : TB.TO = 86400000000000 ∧ TB.TD = 86400000000000 ∧ TB.BD = 86400000000000 ∧ TB.W = 172800000000000 ∧
+    TB.WB = 1000000000 ∧ TB.aggK = 4 := by decide
+
+/-- Non-vacuity of the guard: 50 iterations over a 1 s trace with 100 ms delay need 4.6e19 ns
+    of the 1.8e28 available; 10 000 iterations over an hour-long trace still fit (3.5e26); for
+    a 1 s trace the guard holds up to N = 37 650. -/
+example : (50 + 2) * TB.span 50 1000000000 100000000 ≤ durMax := by decide
+example : (10000 + 2) * TB.span 10000 3600000000000 100000000 ≤ durMax := by decide
+example : (37650 + 2) * TB.span 37650 1000000000 100000000 ≤ durMax := by decide
+/-- ... and the guard does bind: a cap of 100 000 iterations exceeds it -/
+example : ¬ ((100000 + 2) * TB.span 100000 1000000000 100000000 ≤ durMax) := by decide
+
+/-! Non-vacuity of `C19_total`: a two-state machine (state 0 pads after 1 ms, state 1 blocks for
+    2 ms after 1 ms), on both sides, a three-packet trace, 10 ms delay, `N = 50`. Every
+    hypothesis holds, so the run does not fault for any oracle. -/
+
+/-- 1000.0, 2000.0 as f64 and 1.0 as f32 -/
+def exDist (bits : F64) : Dist := { dist := .uniform bits bits, start := 0, max := 0 }
+
+def exMachine : Machine :=
+  { allowedPaddingPackets := 1000, maxPaddingFrac := 0, allowedBlockedMicrosec := 0, maxBlockingFrac := 0,
+    states := [
+      { action := some (.sendPadding false false (exDist 0x408F400000000000) none), counterA := none, counterB := none,
+        transitions := [none, none, none, some [{ target := 1, prob := 0x3f800000 }], some [{ target := 1, prob := 0x3f800000 }],
+                        none, none, none, none, none, none, none, none] },
+      { action := some (.blockOutgoing false false (exDist 0x408F400000000000) (exDist 0x409F400000000000) none),
+        counterA := none, counterB := none,
+        transitions := [none, none, none, some [{ target := 0, prob := 0x3f800000 }], none, none,
+                        some [{ target := 0, prob := 0x3f800000 }], none, none, none, none, none, none] }] }
+
+def exTrace : List TraceLine := [(0, true), (1000000, false), (2000000, true)]
+
+def exTotalArgs : Args :=
+  { network := ⟨10000000, none⟩, maxTraceLength := 0, maxSimIterations := 50, continueAfterAllNormal := true,
+    onlyClientEvents := false, onlyNetworkActivity := false, fpClient := 0, fbClient := 0, fpServer := 0, fbServer := 0 }
+
+theorem C19_total_example_machine : MachinesOK [exMachine] := by
+  intro m hm
+  simp only [List.mem_singleton] at hm
+  subst hm
+  constructor
+  · decide +kernel
+  · intro st hst
+    simp only [exMachine, List.mem_cons, List.mem_singleton, List.not_mem_nil, or_false] at hst
+    rcases hst with rfl | rfl <;> rfl
+
+example (orc : σ) (f : SimFault) :
+    (simAdvanced ρ 0 [exMachine] [exMachine] (parseTrace exTrace 10000000) exTotalArgs orc).stop ≠ .fault f :=
+  C19_total ρ 0 [exMachine] [exMachine] exTrace 50 10000000 2000000 exTotalArgs orc
+    C19_total_example_machine C19_total_example_machine
+    ⟨by decide +kernel, by decide +kernel, by decide +kernel, by decide +kernel⟩
+    (by decide) (by decide) rfl (by intro p hp; cases hp) (Or.inl rfl) (by decide) (by decide) f
+
+/-- the same run under the all-zero oracle, evaluated by the kernel: it runs into the iteration
+    cap after 50 iterations, having executed 9 paddings and 11 blocking actions (10 of them
+    expired), delivered 2 padding packets, queued 10 aggregate delays and accumulated 3 ms of
+    aggregate delay on the client side -/
+def exTotalRun : SimOut Unit :=
+  simAdvanced exOracle 0 [exMachine] [exMachine] (parseTrace exTrace 10000000) exTotalArgs ()
+
+example : exTotalRun.stop = .maxIter ∧ exTotalRun.stream.length = 50 ∧
+    (exTotalRun.stream.filter (fun r => match r.ev.event with | .paddingSent _ => true | _ => false)).length = 9 ∧
+    (exTotalRun.stream.filter (fun r => match r.ev.event with | .blockingBegin _ => true | _ => false)).length = 11 ∧
+    (exTotalRun.stream.filter (fun r => r.ev.event == .blockingEnd)).length = 10 ∧
+    (exTotalRun.stream.filter (fun r => r.ev.event == .paddingRecv)).length = 2 ∧
+    (match exTotalRun.final with | some st => st.net.ghost.aggPushed | none => 0) = 10 ∧
+    (match exTotalRun.final with | some st => st.net.clientAgg | none => 0) = 3000000 := by decide +kernel
+
+/-- **The guard is needed in some form**: the same machines and trace with a network delay of
+    5·10^27 ns (1.6·10^11 years — far outside anything realistic, and outside the guard) make
+    the model stop with the checked-arithmetic fault at the first blocking expiry: the multiple
+    `4 · delay` that `push_aggregate_delay` computes does not fit a `Duration`. -/
+theorem C19_total_guard_needed :
+    (simAdvanced exOracle 0 [exMachine] [exMachine] (parseTrace exTrace 5000000000000000000000000000)
+      { exTotalArgs with network := ⟨5000000000000000000000000000, none⟩ } ()).stop = .fault .durOverflow := by
+  decide +kernel
 
 /-! Non-vacuity: a concrete two-packet run without machines (state built directly, so that the
     kernel can evaluate it): 7 iterations, 3 of them client events; the stream is the same for
